@@ -1,5 +1,6 @@
 """C20 - component-based normalisation: the detector-pair ('fan') index maps (DESIGN.md section 6, C20)."""
 import os
+import re
 
 from vlib.runner import Job
 
@@ -82,6 +83,38 @@ KERNELS += [
     APPLY("K_apply_geo_stmt", "apply_geo_norm(FanProjData&, const GeoData3D&, bool)", r"apply_geo_norm\(FanProjData& fan_data, const GeoData3D& geo_data, const bool apply\)",
           r"work\(([^,;]+),\s*([^,;]+),\s*([^,;]+),\s*([^,;()]+)\)", r"FACT4(\1, \2, \3, \4)", ", const int num_transaxial_detectors"),
 ]
+KERNELS.append(dict(name="K_iter_eff", file=F, cxx_name="iterate_efficiencies(DetectorEfficiencies&, const Array<2,float>&, const FanProjData&)",
+                    func=r"iterate_efficiencies\(DetectorEfficiencies& efficiencies, const Array<2, float>& data_fan_sums, const FanProjData& model\)",
+                    c_header="void K_iter_eff(const struct FAN* self)", loops=4,
+                    rules=[(r"assert\(model\.get_m[^;]*;", "", 4),
+                           (r"const int num_detectors_per_ring = model\.get_num_detectors_per_ring\(\);", "const int num_detectors_per_ring = self->num_detectors_per_ring;", 1),
+                           (r"model\.get_min_ra\(\)", "0", 1), (r"model\.get_max_ra\(\)", "(self->num_rings - 1)", 1), (r"model\.get_min_a\(\)", "0", 1),
+                           (r"model\.get_max_a\(\)", "(self->num_detectors_per_ring - 1)", 1), (r"model\.get_min_rb\(ra\)", "K_fan_get_min_rb(self, ra)", 1),
+                           (r"model\.get_max_rb\(ra\)", "FAN_RB_MAX(self, ra, 0)", 1), (r"model\.get_min_b\(a\)", "FAN_MIN_B(self, a)", 1), (r"model\.get_max_b\(a\)", "FAN_MAX_B(self, a)", 1),
+                           (r"data_fan_sums\[ra\]\[a\] == 0", "EFF_DATA_ZERO(ra, a)", 1), (r"efficiencies\[ra\]\[a\] = 0;", "EFF_SET(ra, a, 0);", 1),
+                           (r"denominator \+= efficiencies\[(\w+)\]\[([^\]]+)\] \* model\(([^;]*)\);", r"EFF_ACCUM(\1, \2, \3);", 1),
+                           (r"efficiencies\[ra\]\[a\] = data_fan_sums\[ra\]\[a\] / denominator;", "EFF_SET(ra, a, 1);", 1),
+                           (r"float denominator = 0;", "", 1)]))
+# FanProjData range accessors (get_min/max_rb, get_min/max_b, get_min/max_a, get_min/max_ra): what the library's loops iterate over
+def ACC(name, sig, header):
+    return dict(name=name, file=F, cxx_name="FanProjData::" + sig, func=r"FanProjData::" + re.escape(sig).replace("\\ ", " ") + r" const", c_header=header, loops=0, contract_alias=name,
+                rules=[(r"\(\*this\)\[([^\]\[]+)\]\[\(\*this\)\[([^\]\[]+)\]\.get_min_index\(\)\]\.get_(min|max)_index\(\)", r"RNG2(self, \1, A_MIN_OF(self, \2), \3)", (0, 1)),
+                       (r"\(\*this\)\[([^\]\[]+)\]\[(\w+)\]\[\(\*this\)\[([^\]\[]+)\]\[(\w+)\]\.get_min_index\(\)\]\.get_(min|max)_index\(\)",
+                        r"RNG3(self, \1, \2, RB_MIN_OF(self, \3, \4), \5)", (0, 1)),
+                       (r"\(\*this\)\[([^\]\[]+)\]\.get_(min|max)_index\(\)", r"RNG1(self, \1, \2)", (0, 1)),
+                       (r"base_type::get_(min|max)_index\(\)", r"RNG0(self, \1)", (0, 1)), (r"(?<![\w>.:])get_min_index\(\)", "RNG0(self, min)", (0, 3)),
+                       (r"(?<![\w>.])max_ring_diff\b", "self->max_ring_diff", (0, 1)), (r"\bmax\(", "K_max_int(", (0, 1))])
+
+
+import re as _re
+KERNELS += [
+    ACC("K_fan_get_max_rb", "get_max_rb(const int ra)", "int K_fan_get_max_rb(const struct FAN* self, const int ra)"),
+    ACC("K_fan_get_min_rb_acc", "get_min_rb(const int ra)", "int K_fan_get_min_rb_acc(const struct FAN* self, const int ra)"),
+    ACC("K_fan_get_min_b", "get_min_b(const int a)", "int K_fan_get_min_b(const struct FAN* self, const int a)"),
+    ACC("K_fan_get_max_b", "get_max_b(const int a)", "int K_fan_get_max_b(const struct FAN* self, const int a)"),
+    ACC("K_fan_get_max_a", "get_max_a()", "int K_fan_get_max_a(const struct FAN* self)"),
+    ACC("K_fan_get_max_ra", "get_max_ra()", "int K_fan_get_max_ra(const struct FAN* self)"),
+]
 # GeoData3D: same pattern (only half of the data stored; the fan is the whole ring: [a, a+N-1])
 GSEL = [(r"\(\*this\)\[([^\]]+)\]\[([^\]]+)\]\[([^\]]+)\]\s*\[([^\]]+)\]", r"GEO_CELL(self, \1, \2, \3, \4)", 1),
         (r"get_min_b\(", "GEO_MIN_B(self, ", 1), (r"(?<![\w>.])num_detectors_per_ring\b", "self->num_detectors_per_ring", 2)]
@@ -127,6 +160,9 @@ def jobs(tier, gen_dir):
     J("K_fan_is_in_data", "h_K_fan_is_in_data", enforce="K_fan_is_in_data", repl=RD, kernels=["K_fan_is_in_data"])
     J("K_fan_select", "h_K_fan_select", enforce="K_fan_select", repl=RD, kernels=["K_fan_select"])
     J("K_fan_select_nc", "h_K_fan_select_nc", enforce="K_fan_select_nc", repl=RD, kernels=["K_fan_select_nc"])
+    for N in NS[tier][:6]:
+        J("K_fan_select/loop-domain/N=%d" % N, "h_K_fan_select", enforce="K_fan_select", repl=RD, kernels=["K_fan_select"], defs={"C20_LOOP_DOMAIN": None, "C20_N": N},
+          params={"num_detectors_per_ring": N, "domain": "as the library's loops call it (b not reduced modulo N)"})
     for N in NS[tier]:
         J("lemma_fan_cells/N=%d" % N, "h_lemma_fan_cells", kind="lemma", repl=["K_fan_select"], defs={"C20_N": N}, params={"num_detectors_per_ring": N},
           kernels=["K_fan_select"], min_obligations=3)
@@ -151,6 +187,13 @@ def jobs(tier, gen_dir):
             J("%s/N=%d" % (k, N), "h_" + k, enforce=k, kernels=[k], min_obligations=2, defs={"APPLY_KIND_" + k.split("_")[2]: None, "C20_N": N}, params={"num_detectors_per_ring": N})
     out.append(Job("c20/canary/K_apply_block_stmt", HARNESS, "h_K_apply_block_stmt", enforce="K_apply_block_stmt", kernels=["K_apply_block_stmt"], kind="canary",
                    defines={"CANARY_K_apply_block_stmt": None, "APPLY_KIND_block": None, "C20_CT": 9, "C20_CA": 9}, backend="kissat", expect_fail=r"K_apply_block_stmt\.postcondition", no_base_flags=True, timeout=300))
+    for N in NS[tier][:4]:
+        J("K_iter_eff/N=%d" % N, "h_K_iter_eff", enforce="K_iter_eff", repl=RD + ["EFF_DATA_ZERO"], kernels=["K_iter_eff"], loop_contracts=True, object_bits=12, timeout=900,
+          defs={"C20_N": N}, params={"num_detectors_per_ring": N})
+    out.append(Job("c20/canary/K_iter_eff", HARNESS, "h_K_iter_eff", enforce="K_iter_eff", replace=RD + ["EFF_DATA_ZERO"], kernels=["K_iter_eff"], kind="canary", loop_contracts=True,
+                   defines={"CANARY_K_iter_eff": None, "C20_N": 8}, expect_fail=r"K_iter_eff\.postcondition", no_base_flags=True, timeout=300, backend="kissat", object_bits=12))
+    for k in ("K_fan_get_max_rb", "K_fan_get_min_rb_acc", "K_fan_get_min_b", "K_fan_get_max_b", "K_fan_get_max_a", "K_fan_get_max_ra"):
+        J(k, "h_" + k, enforce=k, kernels=[k], min_obligations=2)
     GRD = ["GEO_MIN_B", "GEO_MAX_B", "GEO_RB_MIN", "GEO_RB_MAX"]
     J("K_geo_is_in_data", "h_K_geo_is_in_data", enforce="K_geo_is_in_data", repl=GRD, kernels=["K_geo_is_in_data"])
     J("K_geo_select", "h_K_geo_select", enforce="K_geo_select", repl=GRD, kernels=["K_geo_select"])
@@ -193,6 +236,8 @@ def replay(job, o, workroot, repo):
         cands = [["gaps"], ["roundtrip"]]
     if "ml_" in job.name:
         cands = [["mlblock"]]
+    if "K_fan_get_" in job.name or "K_fan_ctor" in job.name or "K_iter_eff" in job.name:
+        cands = [["ranges", 4, 8, 1, 3], ["ranges", 6, 16, 2, 5], ["ranges", 3, 8, 2, 7], ["ranges", 5, 12, 0, 1]] + cands
     for c in cands:
         st, detail = native.run(exe, c, timeout=900)
         if st == "confirmed":
